@@ -266,7 +266,8 @@ def sym_paths(g, start=None, seed=None, stops=None, max_paths=60000,
                 continue
             a2 = ev2
             if node.kind == "cond":
-                a2 = ev2 + [("atom", ctext, lab == "T", nid)]
+                ct, flip = _norm_mask_test(ctext)
+                a2 = ev2 + [("atom", ct, (lab == "T") != flip, nid)]
             elif node.kind == "switch":
                 a2 = ev2 + [("atom", ctext, lab, nid)]
             counts[tgt] = cnt + 1
@@ -276,6 +277,38 @@ def sym_paths(g, start=None, seed=None, stops=None, max_paths=60000,
             counts[tgt] = cnt
     go(start, dict(seed or {}), [], [], [], {start: 1})
     return out
+
+
+_MASK_RE = None
+
+
+def _norm_mask_test(text):
+    """`((K & x) != 0)` and `((K & x) == 0)` are the flag test `(K & x)`
+    (the latter negated): one spelling for every rule"""
+    global _MASK_RE
+    import re
+    if _MASK_RE is None:
+        _MASK_RE = (re.compile(r"^\(0 (!=|==) (\(\d+ & .+\))\)$"),
+                    re.compile(r"^\((\(\d+ & .+\)) (!=|==) 0\)$"))
+    m = _MASK_RE[0].match(text)
+    if m and _balanced(m.group(2)):
+        return m.group(2), m.group(1) == "=="
+    m = _MASK_RE[1].match(text)
+    if m and _balanced(m.group(1)):
+        return m.group(1), m.group(2) == "=="
+    return text, False
+
+
+def _balanced(t):
+    d = 0
+    for i, ch in enumerate(t):
+        if ch == "(":
+            d += 1
+        elif ch == ")":
+            d -= 1
+            if d == 0 and i != len(t) - 1:
+                return False
+    return d == 0
 
 
 def feasible_paths(g, **kw):
